@@ -279,13 +279,16 @@ async def _tcp_cell(position: str, exc_name: str, tls: bool) -> dict[str, Any]:
     }
 
 
-async def _udp_cell(position: str, exc_name: str) -> dict[str, Any]:
+async def _udp_cell(position: str, exc_name: str, eager: bool = False) -> dict[str, Any]:
     from easynetwork.exceptions import DatagramProtocolParseError
     from easynetwork.protocol import DatagramProtocol
     from easynetwork.serializers.line import StringLineSerializer
     from easynetwork.servers.async_udp import AsyncUDPNetworkServer
     from easynetwork.servers.handlers import AsyncDatagramRequestHandler
 
+    if eager:
+        # an event loop with eager task start (the datagram server has special code for it)
+        asyncio.get_running_loop().set_task_factory(asyncio.eager_task_factory)
     excs = _exceptions()
     events: list[dict[str, Any]] = []
     addrs = {1: ("10.0.0.1", 11), 2: ("10.0.0.2", 22), 3: ("10.0.0.3", 33)}
@@ -295,9 +298,19 @@ async def _udp_cell(position: str, exc_name: str) -> dict[str, Any]:
     def ev(kind: str, c: int = 0, i: int = 0, ok: bool = False) -> None:
         events.append({"ev": kind, "c": c, "i": i, "ok": ok})
 
+    # eager cells, failure after the first yield: three more datagrams of the faulty address are queued while its handler is suspended;
+    # when that run ends with its failure, the queued ones are dispatched to runs that fail before they ever suspend
+    burst = [3 if (eager and position == "handle_after_yield") else 0]
+    gate = asyncio.Event()
+
+    fault_logged = [False]
+
     def boom() -> None:
-        armed[0] = False
-        ev("fault")
+        if not fault_logged[0]:
+            fault_logged[0] = True
+            ev("fault")
+        armed[0] = burst[0] > 0
+        burst[0] -= 1
         if exc_name == "StreamProtocolParseError":
             raise excs["ValueError"]()
         raise excs[exc_name]()
@@ -305,7 +318,7 @@ async def _udp_cell(position: str, exc_name: str) -> dict[str, Any]:
     class Handler(AsyncDatagramRequestHandler[str, str]):
         async def handle(self, client: Any) -> Any:
             cid = by_addr[_client_addr(client)]
-            if cid == 2 and armed[0] and position == "handle_before_yield":
+            if cid == 2 and armed[0] and (position == "handle_before_yield" or (fault_logged[0] and burst[0] >= 0 and eager)):
                 boom()
             try:
                 req = yield
@@ -314,6 +327,10 @@ async def _udp_cell(position: str, exc_name: str) -> dict[str, Any]:
                     boom()
                 return
             if cid == 2 and armed[0] and position == "handle_after_yield":
+                if burst[0] == 3:
+                    await gate.wait()
+                boom()
+            if cid == 2 and armed[0] and burst[0] >= 0 and position == "handle_after_yield":
                 boom()
             await client.send_packet("a" + req[1:])
 
@@ -356,6 +373,17 @@ async def _udp_cell(position: str, exc_name: str) -> dict[str, Any]:
     await exchange(1)
     if position == "handle_on_thrown_error":
         await exchange(2, b"\xff\xfe")
+    elif burst[0] == 3:
+        sent[2] += 1
+        ev("req", 2, 1)
+        lst.push(b"q1", addrs[2])
+        await harness.settle()  # its handler is suspended behind the gate
+        for _ in range(3):
+            lst.push(b"q0", addrs[2])
+        await harness.settle()
+        gate.set()
+        await harness.settle()
+        seen = len(lst.sent)
     else:
         await exchange(2)
     await exchange(1)
@@ -369,7 +397,7 @@ async def _udp_cell(position: str, exc_name: str) -> dict[str, Any]:
     await server.server_close()
     await asyncio.gather(task, return_exceptions=True)
     lsock.close()
-    return {"nc": 3, "faulty": 2, "stream": False, "events": traces.uniform(events, EVD), "meta": f"UDP position={position} exception={exc_name}"}
+    return {"nc": 3, "faulty": 2, "stream": False, "events": traces.uniform(events, EVD), "meta": f"UDP{'(eager tasks)' if eager else ''} position={position} exception={exc_name}"}
 
 
 def _client_addr(client: Any) -> Any:
@@ -432,6 +460,8 @@ def run(chk: Check) -> None:
             if en == "StreamProtocolParseError":
                 continue
             cell(lambda: _udp_cell(pos, en), f"UDP {pos} {en}")
+            if en in ("ValueError", "ExceptionGroup", "ClientClosedError"):
+                cell(lambda: _udp_cell(pos, en, eager=True), f"UDP(eager tasks) {pos} {en}")
     slim = [{"nc": t["nc"], "faulty": t["faulty"], "stream": t["stream"], "events": t["events"]} for t in rec]
     res = traces.validate("IsolationTrace", slim, cfg_text=TRACE_CFG, parallel=4, chunk=400)
     chk.traces += len(rec)
